@@ -26,6 +26,28 @@ def handle : List String → Option String
       match cloneAll (fun ty => bases.lookup ty) s0 keys with
       | none => pure "KeyError"
       | some s => pure (if s.phs.isEmpty then "!" else ";".intercalate (s.phs.map fun p => s!"{p.id}/{encStr p.name}"))
+  | ["c13.set", own, inh, ops] => do
+      -- own: x/y/cx/cy with n for absent (off present iff x and y); inh: l/t/w/h; ops: d:v,...
+      let oi (t : String) : Option (Option Int) := if t == "n" then some none else (t.toInt?).map some
+      let o ← (own.splitOn "/").mapM oi
+      let i ← (inh.splitOn "/").mapM oi
+      match o, i with
+      | [x, y, cx, cy], [l, t, w, h] =>
+        let own : OwnGeom := { off := match x, y with | some a, some b => some (a, b) | _, _ => none,
+                               ext := match cx, cy with | some a, some b => some (a, b) | _, _ => none }
+        let inh : Inh := ⟨l, t, w, h⟩
+        let ops ← if ops == "!" then some [] else (ops.splitOn ",").mapM fun t => match t.splitOn ":" with
+          | [d, v] => do
+              let v ← v.toInt?
+              let d ← (match d with | "left" => some Dim.left | "top" => some Dim.top | "width" => some Dim.width | "height" => some Dim.height | _ => none)
+              pure (d, v)
+          | _ => none
+        let sh (v : Option Int) : String := match v with | some a => toString a | none => "n"
+        let (_, outs) := ops.foldl (fun ((g : OwnGeom), acc) op =>
+          let g' := setDim g inh op.1 op.2
+          (g', acc ++ ["/".intercalate ([Dim.left, Dim.top, Dim.width, Dim.height].map fun d => sh (readDim g' inh d))])) (own, [])
+        pure (";".intercalate outs)
+      | _, _ => none
   | ["c13.rep", own, idx, lay, mas] => do
       let oi (t : String) : Option (Option Int) := if t == "n" then some none else (t.toInt?).map some
       let own ← oi own; let idx ← idx.toNat?
